@@ -118,3 +118,49 @@ def compile_stream(tier, rng, P, only=None, cases=None):
                   "compile: random programs of the core language (the fragment of exec_refines_sem: notes, numbered notes, rests, l o v q t, < > ( ), loops with ':', "
                   "Sub, tuplets, chords, TR, CH, TrackSync) printed on one line and lexed by the real lexer; the token list must be exactly Ex2.compileL of the "
                   "program (the list the refinement theorem is about). non-trivial = distinct token lists", timeout_case=20.0)
+
+
+PRINTABLE = {"note", "rest", "l", "o", "orel", "v", "vrel", "q", "t", "loop"}
+def _printable(cmds):
+    for c in cmds:
+        if c[0] not in PRINTABLE: return False
+        if c[0] == "loop" and not (_printable(c[2]) and _printable(c[3] or [])): return False
+        if c[0] == "l" and c[1] is not None and mml.pr([c]).startswith("l."): return False     # `l.` goes through the reservation check
+    return True
+
+def print_stream(tier, rng, P, only=None, cases=None):
+    """the canonical text Lp.printKL of a program (the text lex_print is about) through the REAL lexer: tokens must be Ex2.compileL of the program"""
+    from .core import run_driver
+    big = tier == "thorough"
+    def mk():
+        raw = []
+        n = 8000 if big else 1000
+        tries = 0
+        while len(raw) < n and tries < n * 10:
+            tries += 1
+            prog = mml.gen_cmds(rng, 3, rng.randrange(1, 8), top=False)
+            if not _printable(prog): continue
+            raw.append(prog)
+        outs = run_driver(["printk " + hx(mml.sexp(p)) for p in raw])
+        cs = []
+        for i, (prog, o) in enumerate(zip(raw, outs)):
+            f = dict(x.split("=", 1) for x in o.split(" ")[1:] if "=" in x)
+            text = unhx(f.get("text", "~")).decode("utf-8", "replace") if f.get("text", "~") != "~" else ""
+            cs.append(dict(req="tokens " + hx(text), src=text, show=text[:300], want=f.get("toks"), lexed=f.get("lexed"), prog=prog, key="p%d" % i))
+        return cs
+    def judge(c, impl, m):
+        st, f = impl
+        if st != "ok": return ("mismatch", "the real lexer did not return normally on a printed program: " + st)
+        if c["lexed"] != c["want"]: return ("mismatch", "the model lexer on the printed text does not give compileL (theorem lex_print would be false): %s" % c["src"][:120])
+        if f["toks"] != c["want"]:
+            a = unhx(f["toks"]).decode("utf-8", "replace").split(" ("); b = unhx(c["want"]).decode("utf-8", "replace").split(" (")
+            for x, y in zip(a, b):
+                if x != y: return ("mismatch", "the real lexer on the printed text differs from compileL: real (%s  compileL (%s" % (x[:150], y[:150]))
+            return ("mismatch", "token lists differ in length: real %d compileL %d" % (len(a), len(b)))
+        if f.get("log", "~") != "~": return ("mismatch", "the real lexer reports errors on a printed program")
+        return None
+    return Stream("print", cases if (cases and only == "print") else mk(), lambda c, st, f: [], judge,
+                  lambda c, i, m: c["want"][:300] if i[0] == "ok" else None,
+                  "print: random programs of the printable fragment (notes with all parameters, rests, l o v q t, < > ( ), nested loops with ':') written by the Lean "
+                  "printer Lp.printKL (the text the theorem lex_print is about) and lexed by the REAL lexer: the token list must be Ex2.compileL of the program, "
+                  "with an empty log; the model lexer's answer on the same text is checked too. non-trivial = distinct token lists", timeout_case=20.0)
